@@ -47,6 +47,7 @@ def cases(tier, seed):
 def gen_project(rnd):
     shapes = set()
     sub = rnd.random() < 0.3
+    comment_ok = rnd.random() < 0.15
     lib = ["class Acc:", "    rate = 2", "", "    def __init__(self, start, step=1):", "        self.total = start",
            "        self.count = 0", "        self.step = step", "",
            "    def add(self, n):", "        self.total = self.total + n * self.step", "        self.count += 1",
@@ -73,8 +74,9 @@ def gen_project(rnd):
         else:
             L, acc, pre = ["from lib import Acc as A2, compute, double_plus" + (", Sub" if sub else "")], "A2", ""
         L += ["", f"o = {acc}(5)", "print('t0', o.total, o.count)"]
-        uses = rnd.sample(["read", "write", "aug", "chain", "tuple", "kwctor", "expr-read", "del-read", "two-objs"],
-                          rnd.randint(3, 6))
+        uses = rnd.sample(["read", "write", "aug", "chain", "tuple", "kwctor", "expr-read", "del-read", "two-objs",
+                           "multiline-write", "backslash-write", "multiline-aug"] +
+                          (["write-with-comment"] if comment_ok else []), rnd.randint(3, 7))
         for u in uses:
             if u == "tuple" and rnd.random() < 0.7:
                 continue
@@ -95,6 +97,14 @@ def gen_project(rnd):
                 L.append("print('expr', [o.total, o.total * 2][1] - o.count)")
             elif u == "del-read":
                 L.append("print('cmp', o.total > 3 and o.total < 1000)")
+            elif u == "multiline-write":
+                L += [f"o.total = {pre}compute(o.total, 3) + (", "    o.count + 1", ")", "print('mlw', o.total)"]
+            elif u == "backslash-write":
+                L += ["o.total = o.total + \\", "    2", "print('bsw', o.total)"]
+            elif u == "multiline-aug":
+                L += ["o.total += (1 +", "            2)", "print('mla', o.total)"]
+            elif u == "write-with-comment":
+                L += ["o.total = 11  # reset (total)", "print('wc', o.total)"]
             elif u == "two-objs":
                 L += [f"q = {acc}(9)", "q.total = o.total + 1", "print('two', q.total, o.total)"]
         L += ["print('add', o.add(2), o.scale(3))", f"print('fn', {pre}compute(3, 4), {pre}double_plus(2, 5))",
@@ -168,7 +178,9 @@ def run_case(spec):
                     return usefunction.UseFunction(project, project.get_file("lib.py"), offset).get_changes()
                 ref = "use-function:" + target
 
-            label = None   # no labelled hostile class: the pinned tree is clean on this whole workload
+            label = None
+            if ref.startswith("encapsulate") and "write-with-comment" in meta["shapes"]:
+                label = "field-write-followed-by-a-trailing-comment"
             if label:
                 feats = f"hostile:{ref.split('-')[0]}:{label}"
             else:
